@@ -43,6 +43,7 @@ type c16Case struct {
 	CfgPad     int    `json:"cfgpad"`     // bytes of comment lines before the first section of the configuration file
 	NoDBFalse  bool   `json:"nodbfalse"`  // --no-database=false is given: must behave as if the switch were absent
 	Dollar     bool   `json:"dollar"`     // the file names contain $HOME / ${USER}: they are names, not references
+	DepthMul   int    `json:"depthmul,omitempty"` // >1: the four distinguishable depth values are 1..4 times this factor (depths far above the default)
 }
 
 var c16Formats = []string{"2006/01/02", "2006-01-02", "02.01.2006", "20060102", "02/01/2006", "2006/01/02"} // index 0 = default, 5 = default given explicitly
@@ -76,23 +77,26 @@ func checkC16(c c16Case, ctx *vCtx) *vFailure {
 	hasCfg := c.Channel != "none" && !c.CfgMissing
 	fmtIdx, fmtLevel := c16Pick(c.Fmt, hasCfg, 0)
 	layout := c16Formats[fmtIdx]
-	depthText := func(v int) string {
-		if v == 5 {
-			return "10"
+	depthVal := func(v int) int {
+		switch {
+		case v == 5:
+			return 10
+		case v == 6:
+			return 0 // a depth of zero given explicitly: nothing resolves
+		case c.DepthMul > 1:
+			return v * c.DepthMul
 		}
-		if v == 6 {
-			return "0"
-		}
-		return fmt.Sprint(v)
+		return v
 	}
+	depthText := func(v int) string { return fmt.Sprint(depthVal(v)) }
 	bookK, bookLevel := c16Pick(c.Book, hasCfg, 5)
 	logK, logLevel := c16Pick(c.Log, hasCfg, 5)
 	depthIdx, depthLevel := c16Pick(c.Depth, hasCfg, 10)
-	if depthIdx == 5 {
-		depthIdx = 10
+	if depthLevel != "default" {
+		depthIdx = depthVal(depthIdx)
 	}
-	if depthIdx == 6 {
-		depthIdx = 0 // a depth of zero given explicitly: nothing resolves
+	if depthIdx > 11 {
+		ctx.Label("depth>11")
 	}
 	todaySrc := c.Today
 	todaySrc.Env = 0
@@ -161,7 +165,7 @@ func checkC16(c c16Case, ctx *vCtx) *vFailure {
 		fmt.Fprintf(&cfg, "Now=%04d-%02d-%02dT00:00:00Z\n", y, m, d)
 	}
 	if c.Depth.Cfg != 0 {
-		fmt.Fprintf(&cfg, "[Resolver]\nMaxDepth=%d\n", c.Depth.Cfg)
+		fmt.Fprintf(&cfg, "[Resolver]\nMaxDepth=%d\n", depthVal(c.Depth.Cfg))
 	}
 	cfgPath := filepath.Join(root, "my.conf")
 	if c.Channel == "default" {
@@ -301,7 +305,7 @@ func checkC16(c c16Case, ctx *vCtx) *vFailure {
 
 	// 1. which book is read (raw export, independent of the depth)
 	if c.NoDatabase {
-		for _, cmd := range [][]string{{"csv", "database"}, {"reg", "--no-color"}, {"report", "unresolved"}} {
+		for _, cmd := range [][]string{{"csv", "database"}, {"csv", "database-resolved"}, {"reg", "--no-color"}, {"bal"}, {"bal", "-s", "x"}, {"report", "unresolved"}, {"report", "totals"}, {"report", "element-total", "x"}, {"summary", vFmtDay(41, layout)}} {
 			got := run(cmd...)
 			// reference: the same settings with an explicitly empty book instead of --no-database
 			saved := global
@@ -341,7 +345,11 @@ func checkC16(c c16Case, ctx *vCtx) *vFailure {
 			return vFailf("%s: csv database-resolved failed with %q, expected the depth error", desc, rr.err)
 		}
 		// probe the effective depth exactly: books with one chain of H references fail iff H >= N
-		for _, h := range []int{1, 2, 3, 4, 5, 9, 10, 11} {
+		probes := []int{1, 2, 3, 4, 5, 9, 10, 11}
+		if depthIdx > 11 {
+			probes = append(probes, 12, 64, 99, 100, 101, 127, 128, 255, 256, depthIdx-1, depthIdx, depthIdx+1)
+		}
+		for _, h := range probes {
 			var pb strings.Builder
 			for i := 0; i < h; i++ {
 				next := fmt.Sprintf("p%d", i+1)
@@ -375,11 +383,14 @@ func checkC16(c c16Case, ctx *vCtx) *vFailure {
 	}
 	// 5. today
 	st := run("stats")
-	if !c.NoDatabase {
+	{
 		if st.failed {
 			return vFailSig(c16Sig(c), "%s: stats failed: %s", desc, st.err)
 		}
 		so := vReadStats(st.out)
+		if c.NoDatabase && so.DbRecords != "0" {
+			return vFailSig("C16/no-database-ignored", "%s: stats with --no-database counts %s recipes; an empty recipe book has none", desc, so.DbRecords)
+		}
 		if so.First != vFmtDay(41, layout) || so.Last != vFmtDay(43, layout) || so.LogRecords != "2" {
 			return vFailSig(c16Sig(c), "%s: stats shows first/last record %q / %q (%s records), the log has 2 records dated %s and %s in the format chosen by %s", desc, so.First, so.Last, so.LogRecords, vFmtDay(41, layout), vFmtDay(43, layout), fmtLevel)
 		}
@@ -472,6 +483,9 @@ func genC16(t *rapid.T) c16Case {
 	if c.Channel != "none" && c.Channel != "default" {
 		c.CfgMissing = rapid.IntRange(0, 9).Draw(t, "missing") == 0
 	}
+	if rapid.IntRange(0, 2).Draw(t, "depthbig") == 0 {
+		c.DepthMul = rapid.IntRange(2, 130).Draw(t, "depthmul")
+	}
 	if c.Depth.Flag != 0 && rapid.IntRange(0, 5).Draw(t, "depthzero") == 0 {
 		c.Depth.Flag = 6
 	} else if c.Depth.Env != 0 && rapid.IntRange(0, 5).Draw(t, "depthzeroenv") == 0 {
@@ -560,6 +574,16 @@ func c16EnumSpace() []c16Case {
 		out = append(out, c16Case{Channel: ch, DecoyFood: true, Dollar: true, Book: c16Src{Flag: 1, Cfg: 3}, Log: c16Src{Env: 4, Cfg: 2}})
 		out = append(out, c16Case{Channel: ch, DecoyFood: true, Depth: c16Src{Flag: 6, Cfg: 3}})
 		out = append(out, c16Case{Channel: ch, DecoyFood: true, Depth: c16Src{Env: 6, Cfg: 3}})
+	}
+	// depths far above the default, from every source
+	for _, mul := range []int{13, 40, 101, 150, 300} {
+		for _, src := range []c16Src{{Flag: 1}, {Env: 1}, {Cfg: 1}, {Flag: 2, Env: 1, Cfg: 3}, {Env: 2, Cfg: 1}} {
+			ch := "none"
+			if src.Cfg != 0 {
+				ch = "flag"
+			}
+			out = append(out, c16Case{Channel: ch, DecoyFood: true, Depth: src, DepthMul: mul})
+		}
 	}
 	// explicit config: existing vs missing, --no-database in every environment
 	for _, ch := range []string{"flag", "env"} {
